@@ -14,7 +14,7 @@ Trace == ndJsonDeserialize(TRACEFILE)
 VARIABLES l, cur, bad, skip
 ctvars == <<l, cur, bad, skip>>
 
-CFromJ(j) == [j EXCEPT !.opts = LoRange(j.opts)]
+CFromJ(j) == [j EXCEPT !.opts = LoRange(j.opts), !.lvl = LoRange(j.lvl)]
 CObsDiff(o, rec) == {f \in FIELDS : o[f] # rec[f]}
 
 CTInit == l = 1 /\ cur = CDead /\ bad = <<>> /\ skip = TRUE
